@@ -43,10 +43,13 @@ def _setup(eqname, impl, seed, tu=False, top0=False, out0=False):
     if out0:
       a[..., ~np.asarray(grid.mask)] = amp
     return jnp.asarray(a)
+  def orography():
+    # orography is a configuration, not part of the state: it may have energy in every wavenumber
+    return jnp.asarray(rs.randn(*grid.modal_shape) * mask * 1e-3)
   if eqname == 'sw':
     coords = coordinate_systems.CoordinateSystem(grid, layer_coordinates.LayerCoordinates(2))
     specs = sw.ShallowWaterSpecs.from_si(np.array([1.0, 1.3]) * scales.units.kg / scales.units.m ** 3)
-    oro = field(1, 1e-3)[0] if seed % 2 else None
+    oro = orography() if seed % 3 else None
     eq = sw.ShallowWaterEquations(coords, specs, oro, np.array([1.0, 0.6]))
     st = sw.State(field(2, 1e-2, True), field(2, 1e-2, True), field(2, 1e-2))
     return grid, eq, st, 2e-3
@@ -55,7 +58,7 @@ def _setup(eqname, impl, seed, tu=False, top0=False, out0=False):
   coords = coordinate_systems.CoordinateSystem(grid, vertical)
   specs = pe.PrimitiveEquationsSpecs.from_si()
   tref = np.array([230.0, 255.0, 285.0])
-  oro = field(1, 1e-3)[0]
+  oro = orography()
   if tu:
     q = np.zeros((K,) + grid.modal_shape); q[:, 0, 0] = 0.37
     tracers = {'specific_humidity': jnp.asarray(q)} if eqname == 'moist' else {'age': jnp.asarray(q)}
